@@ -4,6 +4,7 @@
 #include "rt_common.h"
 #include "oneapi/tbb/parallel_for.h"
 #include "oneapi/tbb/blocked_range.h"
+#include "oneapi/tbb/task_group.h"
 
 namespace {
 struct Node {
@@ -15,6 +16,7 @@ struct Node {
     tbb::task_group_context* ctx = nullptr;
     bool invoked = false, returned = false;
     int cancel_calls = 0, cancel_true = 0;
+    sim::event* before_child = nullptr;   // focus mode: signalled just before the first child's algorithm starts
 };
 std::vector<Node>* T = nullptr;
 
@@ -38,7 +40,7 @@ void run_node(int i) {
         for (int j = r.begin(); j < r.end(); ++j) {
             for (int k = 0; k < me.points; ++k) sim::upoint();
             if (j < (int)me.cancels.size()) do_cancel(me.cancels[(size_t)j]);
-            if (j < (int)me.kids.size()) run_node(me.kids[(size_t)j]);
+            if (j < (int)me.kids.size()) { if (me.before_child) me.before_child->signal(); run_node(me.kids[(size_t)j]); }
         }
     }, tbb::simple_partitioner(), *n.ctx);
     n.returned = true;
@@ -46,26 +48,30 @@ void run_node(int i) {
 }
 }
 
-SIM_SCENARIO(scen_c04, "c04", "C04", 6000000, 30000) {
+// focus: a chain of 3-4 bound contexts under store buffers, one cancel aimed at an inner context while its first
+// child is being bound (the window between "parent may have children" and the speculative read of its state);
+// the cancelling thread is already known to the scheduler, otherwise its initialisation inside
+// cancel_group_execution (between the state change and the propagation) closes the window
+static void c04_body(bool focus) {
     hx::Desc d;
     hx::draw_runtime_config(d);
-    sim::g_cfg.tso = sim::draw_bool("tso");
+    sim::g_cfg.tso = focus ? true : sim::draw_bool("tso");
     std::vector<Node> tree; T = &tree;
-    int nnodes = (int)sim::draw_range(2, 12, "nodes");
-    int nroots = (int)sim::draw_range(1, 2, "roots");
+    int nnodes = focus ? (int)sim::draw_range(3, 4, "nodes") : (int)sim::draw_range(2, 12, "nodes");
+    int nroots = focus ? 1 : (int)sim::draw_range(1, 2, "roots");
     tree.resize((size_t)nnodes);
     for (int i = 0; i < nnodes; ++i) {
         Node& n = tree[(size_t)i];
-        n.isolated = i < nroots ? sim::draw_bool("iso_root") : sim::draw(5, "isolated") == 0;
-        if (i >= nroots) { n.parent = (int)sim::draw((uint64_t)i, "parent"); tree[(size_t)n.parent].kids.push_back(i); }
+        n.isolated = focus ? false : i < nroots ? sim::draw_bool("iso_root") : sim::draw(5, "isolated") == 0;
+        if (i >= nroots) { n.parent = focus ? i - 1 : (int)sim::draw((uint64_t)i, "parent"); tree[(size_t)n.parent].kids.push_back(i); }
         n.points = (int)sim::draw(6, "points");
     }
-    int ncancels = (int)sim::draw_range(1, 3, "ncancels");
+    int ncancels = focus ? 1 : (int)sim::draw_range(1, 3, "ncancels");
     std::vector<std::pair<int, int>> ext;   // external cancellers: (target, delay)
     std::string cs;
     for (int c = 0; c < ncancels; ++c) {
-        int target = (int)sim::draw((uint64_t)nnodes, "target");
-        if (sim::draw(3, "external") == 0) { int delay = (int)sim::draw(200, "delay"); ext.push_back({target, delay}); cs += hx::fmt(" ext->%d@%d", target, delay); }
+        int target = focus ? (int)sim::draw_range(1, nnodes - 2, "target") : (int)sim::draw((uint64_t)nnodes, "target");
+        if (focus || sim::draw(3, "external") == 0) { int delay = (int)sim::draw(focus ? 30 : 200, "delay"); ext.push_back({target, delay}); cs += hx::fmt(" ext->%d@%d", target, delay); }
         else { int by = (int)sim::draw((uint64_t)nnodes, "by"); tree[(size_t)by].cancels.push_back(target); cs += hx::fmt(" %d->%d", by, target); }
     }
     std::string ts;
@@ -76,14 +82,16 @@ SIM_SCENARIO(scen_c04, "c04", "C04", 6000000, 30000) {
         n.ctx = new tbb::task_group_context(n.isolated ? tbb::task_group_context::isolated : tbb::task_group_context::bound);
         sim::tso_register(n.ctx, sizeof(*n.ctx));
     }
-    int conc = (int)sim::draw(4, "arena_conc");
+    int conc = focus ? 0 : (int)sim::draw(4, "arena_conc");
     // The threads that bound the contexts stay alive until the oracle has looked (a context that outlives the
     // thread it was bound on is orphaned and no longer reached by propagation; nothing runs in it any more,
     // so that case is outside what the property is about).
     sim::event checked;
     std::vector<std::function<void()>> fns;
     for (int r = 0; r < nroots; ++r) fns.push_back([r, conc, &checked] { if (conc) { tbb::task_arena a(conc); a.execute([r] { run_node(r); }); } else run_node(r); checked.wait(); });
-    for (auto& e : ext) fns.push_back([e, &checked] { for (int k = 0; k < e.second; ++k) sim::upoint(); do_cancel(e.first); checked.wait(); });
+    sim::event about_to_bind;
+    if (focus) tree[(size_t)ext[0].first].before_child = &about_to_bind;
+    for (auto& e : ext) fns.push_back([e, focus, &checked, &about_to_bind] { if (focus) { { tbb::task_group warm; warm.run([] {}); warm.wait(); } about_to_bind.wait(); } for (int k = 0; k < e.second; ++k) sim::upoint(); do_cancel(e.first); checked.wait(); });
     std::vector<int> ids;
     for (auto& f : fns) ids.push_back(sim::spawn(f, "user"));
     sim::wait_quiescent();
@@ -124,3 +132,6 @@ SIM_SCENARIO(scen_c04, "c04", "C04", 6000000, 30000) {
     { tbb::task_group tg; tg.run([] { sim::upoint(); }); tg.cancel(); tg.wait(); int ran = 0; tg.run([&] { ran = 1; }); tg.wait(); SIM_CHECK(ran == 1, "oracle:not-reset", "task_group did not reset its context after wait()"); }
     T = nullptr;
 }
+
+SIM_SCENARIO(scen_c04, "c04", "C04", 6000000, 30000) { c04_body(false); }
+SIM_SCENARIO(scen_c04b, "c04b", "C04", 6000000, 30000) { c04_body(true); }
